@@ -30,7 +30,7 @@ def cases(tier, seed):
     for cls in CLASSES:
         for st, cl in FLAGS:
             for rep in range(1 if tier == "quick" else 4):
-                out.append(dict(kind="bands", cls=cls, op="split_lat", container="da", standardize=st, coslat=cl, weights=bool((i + rep) % 2),
+                out.append(dict(kind="bands", cls=cls, op="split_lat", container="da", standardize=st, coslat=cl, weights=bool(i % 2),
                                 dseed=int(gen.rng_for(7100 + seed * (rep > 0), i).integers(0, 2**31 - 1))))
                 i += 1
     # two sample dimensions with entirely missing samples spread unevenly over them, axes exchanged
